@@ -45,23 +45,29 @@ Definition get_parent (p : str) : str :=
   | _ => []
   end.
 
-(* applyChangeToConfig: set, then drop the nearest ancestor marked deleted *)
-Fixpoint drop_deleted_parent (fuel : nat) (m : cmap) (parent : str) : cmap * option (str * pv) :=
+(* the proper prefixes of a path that end at a path element boundary ('/' or '['), longest first *)
+Fixpoint boundary_prefixes (fuel : nat) (p : str) : list str :=
   match fuel with
-  | O => (m, None)
-  | S f =>
-    match parent with
-    | [] => (m, None)
-    | _ =>
-      match lookup parent m with
-      | Some v => if pv_deleted v then (remove parent m, Some (parent, v))
-                  else drop_deleted_parent f m (get_parent parent)
-      | None => drop_deleted_parent f m (get_parent parent)
-      end
+  | O => []
+  | S i =>
+    (* i runs from len-1 down to 1 in the Go loop: prefix p[:i] when p[i] is a boundary *)
+    match i with
+    | O => []
+    | _ => match nth_error p i with
+           | Some c => if (c =? c_slash) || (c =? c_lbr) then firstn i p :: boundary_prefixes i p else boundary_prefixes i p
+           | None => boundary_prefixes i p
+           end
     end
   end.
+Definition ancestors (p : str) : list str := boundary_prefixes (length p) p.
+
+(* applyChangeToConfig: set, then drop every ancestor (at element boundaries) marked deleted; the outermost is returned *)
 Definition apply_change_to_config (m : cmap) (path : str) (v : pv) : cmap * option (str * pv) :=
-  drop_deleted_parent (S (length path)) (insert path v m) (get_parent path).
+  fold_left (fun '(acc, dropped) a =>
+               match lookup a acc with
+               | Some e => if pv_deleted e then (remove a acc, Some (a, e)) else (acc, dropped)
+               | None => (acc, dropped)
+               end) (ancestors path) (insert path v m, None).
 
 (* AddDeleteChildren: returns the updated change map AND the store as mutated through the shared pointers *)
 Definition add_delete_children (index : N) (change store : cmap) : cmap * cmap :=
@@ -93,15 +99,27 @@ Definition prune_path_values (l : list pv) (keep_top : bool) : list pv :=
 Definition prune_path_map (m : cmap) (keep_top : bool) : cmap :=
   map (fun v => (pv_path v, v)) (prune_path_values (map snd m) keep_top).
 
-(* store(): only the paths present in [values] are touched *)
+(* store(): the paths present in [values] are written; a live value that is inserted or updated also removes the
+   stored tombstones among its ancestors that the writer no longer holds (clearDeletedAncestors) *)
+Definition clear_ancestors (persisted values : cmap) (v : pv) (st : cmap) : cmap :=
+  if pv_deleted v then st else
+  fold_left (fun acc a =>
+               match lookup a values with
+               | Some _ => acc
+               | None => match lookup a persisted with
+                         | Some e => if pv_deleted e then remove a acc else acc
+                         | None => acc
+                         end
+               end) (ancestors (pv_path v)) st.
+
 Definition store_write (persisted values : cmap) : cmap :=
   let pruned := prune_path_map values true in
   fold_left (fun st '(_, v) =>
-    match lookup (pv_path v) st, lookup (pv_path v) pruned with
-    | None, Some _ => insert (pv_path v) v st
+    match lookup (pv_path v) persisted, lookup (pv_path v) pruned with
+    | None, Some _ => clear_ancestors persisted values v (insert (pv_path v) v st)
     | None, None => st
     | Some _, None => remove (pv_path v) st
-    | Some e, Some _ => if pv_index v =? pv_index e then st else insert (pv_path v) v st
+    | Some e, Some _ => if pv_index v =? pv_index e then st else clear_ancestors persisted values v (insert (pv_path v) v st)
     end) values persisted.
 
 (* transaction controller: changeValue.Index = transaction.Index *)
@@ -151,8 +169,12 @@ Definition rollback_of (persisted change : cmap) : cmap :=
     let rb1 := match dropped with Some (dp, dv) => insert dp dv rb | None => rb end in
     let rb2 := match lookup p persisted with
                | Some old => insert p old rb1
-               | None => insert p (mkPV p [] true 0) rb1 end in
-    (cand', rb2)) change (persisted, [])).
+               | None => if pv_deleted v then rb1 else insert p (mkPV p [] true 0) rb1 end in
+    (* a delete also removes everything beneath its path: those values are part of the rollback *)
+    let rb3 := if pv_deleted v
+               then fold_left (fun acc '(k, cv) => if negb (pv_deleted cv) && is_path_below k p then insert k cv acc else acc) persisted rb2
+               else rb2 in
+    (cand', rb3)) change (persisted, [])).
 (* reconcileValidate, Rollback case: plain overwrite *)
 Definition candidate_rb (persisted rb : cmap) : cmap :=
   fold_left (fun cand '(p, v) => insert p v cand) rb persisted.
